@@ -550,6 +550,10 @@ parsec_map_operator_New(const parsec_tiled_matrix_t* src,
     tp->next_n  = 0;
     tp->super.taskpool_id = 1111;
     tp->super.nb_tasks = src->nb_local_tiles;
+    if( 0 == tp->super.nb_tasks ) {
+        /* no local task will ever release the pending action that stands for them */
+        tp->super.nb_pending_actions = 0;
+    }
     tp->super.task_classes_array = (const parsec_task_class_t **)
         malloc(tp->super.nb_task_classes * sizeof(parsec_task_class_t *));
     tp->super.task_classes_array[0] = &parsec_map_operator;
